@@ -407,6 +407,8 @@ class Evaluator:
                 return env[e.id]
             if e.id in ("True", "False", "None"):
                 return {"True": True, "False": False, "None": None}[e.id]
+            if e.id == "NotImplemented":
+                return NotImplemented
             if env.get("__class_scope__") is not None and e.id in env["__class_scope__"].methods:
                 return env["__class_scope__"].methods[e.id]
             if e.id in self.stubs:
